@@ -31,7 +31,7 @@ type limitRoles struct {
 	batch  *ssa.Function // contains the batch loop around the input receive
 	src    *RecvSite
 	anchor ssa.Instruction // in batch: the receive, or the call of the per-element helper that holds it
-	outer  *ssa.Function // contains the unbounded loop calling (transitively) batch and sleep
+	outer  *ssa.Function   // contains the unbounded loop calling (transitively) batch and sleep
 	sleeps []*ssa.Call
 }
 
@@ -399,18 +399,27 @@ func limitSleepShape(c *Ctx, lr *limitRoles, rule string, strict bool) {
 				if paramIndex(par.Parent(), par) >= len(sa.Args) {
 					continue
 				}
-				a := p.Sym(sa.Args[paramIndex(par.Parent(), par)]).StripConv()
-				if a.Op == "extract" && a.Args[0].Op == "call" {
-					if call, ok := a.Args[0].V.(*ssa.Call); ok {
-						if cal := p.Callee(call); cal != nil && p.IsProduct(cal) {
-							var idx int
-							fmt.Sscanf(a.Name, "%d", &idx)
-							out = append(out, p.resultSyms(cal, idx)...)
-							continue
+				// (a variable assigned from the batch call on every path - duration, stop :=
+				// transfer(); for !stop { delay(duration); duration, stop = transfer() } - stands
+				// for each of the values that reach it)
+				vals := []ssa.Value{sa.Args[paramIndex(par.Parent(), par)]}
+				if ph, isPhi := stripChangeType(vals[0]).(*ssa.Phi); isPhi {
+					vals = ph.Edges
+				}
+				for _, av := range vals {
+					a := p.Sym(av).StripConv()
+					if a.Op == "extract" && a.Args[0].Op == "call" {
+						if call, ok := a.Args[0].V.(*ssa.Call); ok {
+							if cal := p.Callee(call); cal != nil && p.IsProduct(cal) {
+								var idx int
+								fmt.Sscanf(a.Name, "%d", &idx)
+								out = append(out, p.resultSyms(cal, idx)...)
+								continue
+							}
 						}
 					}
+					out = append(out, a)
 				}
-				out = append(out, a)
 			}
 			return out
 		}
